@@ -121,7 +121,7 @@ CHECKS.update({
                   "between instances, freshness after any edit history, for all operation sequences. Tied to /repo on every run by a per-operation correspondence; the proved spec function is also "
                   "evaluated on the implementation's own outputs, plus a fresh-model differential.",
              note="trusted: Coq kernel + vm_compute; Python harness; inspect.Signature.bind; weakref-based handle reuse rests on the tie; modelled not verified: int-valued refs, no ItemSpace requests or "
-                  "cells calls from inside parameter formulas (differential only), no inheritance between static spaces; trigger of D38 avoided (D14 D15 D16 D18 D39 repaired in /repo)",
+                  "cells calls from inside parameter formulas (differential only), no inheritance between static spaces; no recorded defect is avoided (D14 D15 D16 D18 D38 D39 D41 repaired in /repo and generated)",
              technique="Coq refinement proof (invariant by induction over operations and fuel) + vm_compute correspondence + proved-spec oracle + fresh-model differential", design="6/C07"),
 })
 CHECKS.update({
